@@ -109,7 +109,7 @@ def undecodable(ty):
     return []
 
 
-SHAPES = [(1, 0), (0, 1), (1, 0, 1), (1, 1, 0), (0, 1, 1), (1, 0, 0)]     # populated / register-less areas, all adjacent
+SHAPES = [(1, 0), (0, 1), (1, 0, 1), (1, 1, 0), (0, 1, 1), (1, 0, 0), (1, 2, 1), (2, 1, 1), (1, 1, 2)]     # 1 populated / 0 register-less / 2 zero-sized areas, all adjacent
 
 
 def make_table(rnd, types, window=14, want_holes=True, shape=None):
@@ -121,7 +121,7 @@ def make_table(rnd, types, window=14, want_holes=True, shape=None):
     pos = 1 + rnd.randint(0, 2)
     areas = []
     for i in range(na):
-        size = rnd.choice([1, 2, 3, 4, 5, 6]) if shape is None else (rnd.choice([3, 4, 5]) if shape[i] else rnd.choice([1, 2]))
+        size = rnd.choice([1, 2, 3, 4, 5, 6]) if shape is None else (rnd.choice([3, 4, 5]) if shape[i] == 1 else (0 if shape[i] == 2 else rnd.choice([1, 2])))
         if pos + size > window + 1:
             break
         fl = rnd.random() if shape is None else 1.0
@@ -137,7 +137,7 @@ def make_table(rnd, types, window=14, want_holes=True, shape=None):
     regs, info = [], []
     for ai, (base, size, rd, wr, skip, hasw, kind) in enumerate(areas):
         a = base
-        if shape is not None and not shape[ai]:
+        if shape is not None and shape[ai] != 1:
             continue
         while a < base + size:
             if rnd.random() < (0.25 if shape is None else 0.1):
